@@ -164,19 +164,18 @@ namespace stdex
 #ifdef CTPG_VERIF
         constexpr const T& operator[](size_type idx) const { CTPG_VERIF_BOUNDS(idx < N, "cvector::operator[]", idx, N); return the_data[idx]; }
         constexpr T& operator[](size_type idx) { CTPG_VERIF_BOUNDS(idx < N, "cvector::operator[]", idx, N); return the_data[idx]; }
-        constexpr void push_back(const T& v) { CTPG_VERIF_BOUNDS(current_size < N, "cvector::push_back", current_size, N); the_data[current_size++] = v; }
-        constexpr void emplace_back(T&& v) { CTPG_VERIF_BOUNDS(current_size < N, "cvector::emplace_back", current_size, N); the_data[current_size++] = std::move(v); }
-        constexpr const T& front() const { return the_data[0]; }
-        constexpr T& front() { return the_data[0]; }
-        constexpr T& back() { CTPG_VERIF_BOUNDS(current_size > 0, "cvector::back", current_size, N); return the_data[current_size - 1]; }
-        constexpr const T& back() const { CTPG_VERIF_BOUNDS(current_size > 0, "cvector::back", current_size, N); return the_data[current_size - 1]; }
 #else
         constexpr const T& operator[](size_type idx) const { return the_data[idx]; }
         constexpr T& operator[](size_type idx) { return the_data[idx]; }
+#endif
         constexpr void push_back(const T& v) { the_data[current_size++] = v; }
         constexpr void emplace_back(T&& v) { the_data[current_size++] = std::move(v); }
         constexpr const T& front() const { return the_data[0]; }
         constexpr T& front() { return the_data[0]; }
+#ifdef CTPG_VERIF
+        constexpr T& back() { CTPG_VERIF_BOUNDS(current_size > 0, "cvector::back", current_size, N); return the_data[current_size - 1]; }
+        constexpr const T& back() const { CTPG_VERIF_BOUNDS(current_size > 0, "cvector::back", current_size, N); return the_data[current_size - 1]; }
+#else
         constexpr T& back() { return the_data[current_size - 1]; }
         constexpr const T& back() const { return the_data[current_size - 1]; }
 #endif
